@@ -13,20 +13,23 @@ run can force alternatives round-robin and report which ones it drove.
 IDENT_POOL = ['a', 'b', 'c', 'x', 'y', 'z', 'foo', 'bar', 'i', 'j', 'k', 'n', 'obj', 'fn', 'arr',
               'value', 'result', 'tmp', 'self', 'cb', 'e', 'err', 'key', 'get', 'set', 'of', 'let',
               'static', 'yield', 'async', '$', '_', '$x', '_y', 'a1', 'inx', 'news', 'dox', 'ifx',
-              'vars', 'typeofx', 'instanceofx', 'nul', 'tru', 'undefined', 'NaN', 'arguments', 'eval2']
+              'vars', 'typeofx', 'instanceofx', 'nul', 'tru', 'undefined', 'NaN', 'arguments', 'eval2',
+              'get1', 'set2x', 'get_', 'getter', 'set$', 'in1', 'do0']
 UNICODE_IDENTS = ['é', 'ñandú', 'λ', 'Привет', '变量', 'aé', 'ª', 'ǅ', 'ʰx', 'xé', 'x٠', 'x‿y', 'ℵ',
                   # a letter after a digit, ZWNJ / ZWJ, unicode escape sequences (7.6)
                   'x1\u00e9', 'a\u200c', 'a\u200db', '\\u0061bc', 'a\\u0062', 'x\\u0030', '\\u00e9t\\u00e9',
                   'x\u0301y', '$\u00e9', '_\\u200c']
 NUMBERS = ['0', '1', '2', '7', '10', '42', '100', '255', '1.5', '0.5', '.5', '5.', '1e3', '1E3', '1e+3', '1e-3',
            '1.5e10', '.5e1', '5.e1', '0x0', '0x1F', '0XaB', '0xdeadBEEF', '3.14159', '9007199254740993',
-           '0.0', '0e0', '123456789012345678901234567890',
-           # Annex B legacy octal literals: accepted by the parser under test, no verdict on acceptance
-           '010', '0777', '00']
+           '0.0', '0e0', '123456789012345678901234567890']
+# Annex B legacy octal literals and escapes: accepted by the parser under test, no verdict on acceptance; drawn
+# rarely so that they do not take the verdict away from most programs
+NUMBERS_ANNEXB = ['010', '0777', '00']
+STRINGS_ANNEXB = ['"\\101"', "'\\7\\08'", '"\\377\\400"']
 STRINGS = ['""', "''", '"a"', "'a'", '"hello world"', "'it\\'s'", '"say \\"hi\\""', '"a\\nb"', '"tab\\t"',
            "'\\\\'", '"\\x41"', '"\\u0041"', '"\\0"', "'\\r\\n'", '"/*not a comment*/"', "'// nor this'",
            '"\\b\\f\\v"', '"é"', "'变'", '"a\'b"', "'a\"b'", '"\\/"', "'\\q'", '"use strict"', "' '", '";"',
-           '"}"', "'{'", '"</script>"', '"\\101"', "'\\7\\08'", '"\\377\\400"']
+           '"}"', "'{'", '"</script>"']
 STRINGS_CONT = ['"a\\\nb"', "'a\\\r\nb'", '"x\\\ry"', '"p\\\u2028q"', "'\\\n'",
                 # several line terminators inside one token
                 '"a\\\nb\\\nc"', "'\\\n\\\r\n\\\rx'", '"l1\\\u2029l2\\\nl3\\\r\nl4"']
@@ -583,10 +586,10 @@ class Gen(object):
         elif k == 'this':
             self.emit('this')
         elif k == 'number':
-            self.emit(self.rng.choice(NUMBERS), 'num')
+            self.emit(self.rng.choice(NUMBERS_ANNEXB if self.rng.random() < 0.02 else NUMBERS), 'num')
         elif k == 'string':
             pool = STRINGS + (STRINGS_CONT if self.o.string_continuations else [])
-            self.emit(self.rng.choice(pool), 'str')
+            self.emit(self.rng.choice(STRINGS_ANNEXB if self.rng.random() < 0.02 else pool), 'str')
         elif k == 'regex':
             self.emit(self.rng.choice(REGEXES), 'regex')
         elif k in ('true', 'false', 'null'):
